@@ -21,7 +21,8 @@ RULE = (
 )
 REQUIRED = ["construct_contract_evals", "decompose_checked", "string_roundtrip_checked", "variants/renumber",
             "variants/rewrite", "variants/reversed", "synthetic_pairs", "bond_only_on_one_side", "explicit_h_reactions",
-            "charge_changing_reactions", "aromatic_order_changes", "history_reduced_attrs_first", "legacy_converter_checked"]
+            "charge_changing_reactions", "aromatic_order_changes", "history_reduced_attrs_first", "legacy_converter_checked",
+            "generated/spectator_h2", "generated/spectator_bare_h", "generated/element_starting_with_H", "generated/spectator_explicit_h"]
 ASSUMPTIONS = [
     "reference reader: RDKit MolFromSmiles(sanitize=False)+SanitizeMol (keeps mapped hydrogens), canonical non-isomeric SMILES",
     "stereochemistry is not carried by the graph layer and is not compared",
@@ -324,6 +325,16 @@ def run(ctx):
             check_reaction(ctx, corpus.renumber(w, rng), "rewrite", "corpus variants")
         check_reaction(ctx, corpus.shuffle_fragments(r, rng), "fragments", "corpus variants")
         check_reaction(ctx, corpus.reverse(r), "reversed", "corpus variants")
+    # generated reactions with explicit mapped hydrogens on the changing bonds, a wide element alphabet and spectators
+    for t in range(120 if ctx.quick else 3000):
+        if ctx.out_of_time(0.85):
+            ctx.count("generated_truncated_by_budget")
+            break
+        r, tags = corpus.explicit_h_reaction(rng)
+        for tg in tags:
+            ctx.count("generated/" + tg)
+        check_reaction(ctx, r, "generated", "generated explicit-hydrogen reactions")
+        check_reaction(ctx, corpus.shuffle_fragments(corpus.renumber(r, rng), rng), "generated", "generated explicit-hydrogen reactions")
     n = 500 if ctx.quick else 20000
     for t in range(n):
         if ctx.out_of_time():
